@@ -133,7 +133,7 @@ theorem kstep (fuel : Nat) (hk : KInv flow F (qOf cfg) s a) (hi0 : AInv flow F s
       rw [hr] at hrun
       obtain ⟨-, -, htk, -, hit, hcn, -, -, hhol⟩ := hrun
       have hst : StartsAt a q .top := Or.inl hr
-      rcases burst_cases hi hst with ⟨g, m, id, he, -⟩ | ⟨a1, L, fin, hm, -, hsb, -, hne, hE, hbe, htop⟩
+      rcases burst_cases hi hst with ⟨g, m, id, he, -⟩ | ⟨a1, e0, L, fin, hm, -, hsb, -, hne, hE, hbe, htop⟩
       · cases he
       · cases fin with
         | hang => exact absurd rfl hne
@@ -154,7 +154,7 @@ theorem kstep (fuel : Nat) (hk : KInv flow F (qOf cfg) s a) (hi0 : AInv flow F s
       have hrest := perm_run (by simp [hr, RPhase.entries]) hperm
       rw [hr] at hrun
       have hst : StartsAt a q .top := Or.inr ⟨g, hr⟩
-      rcases burst_cases hi hst with ⟨g', m, id, he, -⟩ | ⟨a1, L, fin, hm, -, hsb, -, hne, hE, hbe, htop⟩
+      rcases burst_cases hi hst with ⟨g', m, id, he, -⟩ | ⟨a1, e0, L, fin, hm, -, hsb, -, hne, hE, hbe, htop⟩
       · cases he
       · cases fin with
         | hang => exact absurd rfl hne
@@ -183,7 +183,7 @@ theorem kstep (fuel : Nat) (hk : KInv flow F (qOf cfg) s a) (hi0 : AInv flow F s
       obtain ⟨-, -, -, hpk, ⟨w, hw⟩, hhol, -⟩ := hrun
       obtain ⟨wrest, hws⟩ := drop_of_getElem? hw
       have hst : StartsAt a q (.got m id) := ⟨g, hr⟩
-      rcases burst_cases hi hst with ⟨g', m1, id1, he, -, -, hbe⟩ | ⟨a1, L, fin, hm, -, hsb, -, hne, hE, hbe, htop⟩
+      rcases burst_cases hi hst with ⟨g', m1, id1, he, -, -, hbe⟩ | ⟨a1, e0, L, fin, hm, -, hsb, -, hne, hE, hbe, htop⟩
       · cases he
         obtain ⟨s', h1, h2, h3, h4⟩ := kstep_gotSend (size := size) (rate := cfg.rate) fuel hk hr hF hfl hws hhol hpk.1 hbe rfl hp hrest
         exact ⟨s', _, _, h1, h2, AStep.burstSend a q (.got m id) _ m (flow id) id false hst hbe rfl, h3, by rw [h4, List.append_assoc]⟩
@@ -226,7 +226,7 @@ theorem kstep (fuel : Nat) (hk : KInv flow F (qOf cfg) s a) (hi0 : AInv flow F s
       obtain ⟨-, -, -, hpk, ⟨w, hw⟩, hhol, -⟩ := hrun
       obtain ⟨wrest, hws⟩ := drop_of_getElem? hw
       have hst : StartsAt a q (.done m id) := ⟨p, hr⟩
-      rcases burst_cases hi hst with ⟨g', m1, id1, he, -⟩ | ⟨a1, L, fin, hm, -, hsb, -, hne, hE, hbe, htop⟩
+      rcases burst_cases hi hst with ⟨g', m1, id1, he, -⟩ | ⟨a1, e0, L, fin, hm, -, hsb, -, hne, hE, hbe, htop⟩
       · cases he
       · cases fin with
         | hang => exact absurd rfl hne
